@@ -342,7 +342,7 @@ def run(ctx):
                 "also use '', '-5', '5w', '--opt=5'; every constructor outcome, parse and parse_help result is one record "
                 "judged by TLC; a class = (call, shape, argv length, outcome) where the outcome of a success is the "
                 "structure of the returned record (value kinds, vector lengths)" % (
-                    nshapes, "5 (6 for the 12 cheapest shapes)" if thorough else "4"))
+                    nshapes, "5 (6 for the %d cheapest shapes)" % sum(1 for x in js["shapes"] if x["cheap"]) if thorough else "4"))
     ctx.assumptions += [
         "Extract(T, token) (string -> int / unsigned / std::string / enum conversion) is a table measured by the harness with a plain std::istringstream; its correctness is not decided here (C15/C01)",
         "memory safety of the parsers is only OBSERVED through ASan/UBSan in the harness",
